@@ -191,6 +191,47 @@ def walk(buf, base=0, depth=0, out=None):
     return out
 
 
+def primitive_overrun(buf):
+    """Independent of PyKMIP: the first primitive item (document order) with a standard/extension tag whose declared
+    value (plus padding) does not fit into what is left of its enclosing structure, as (offset, type, declared length,
+    bytes left) - or None.  Such a request cannot be decoded under any reading: the bytes of the value are not there.
+    Not reported: structures that overrun their container (PyKMIP reads 'up to the end of the container', every field is
+    still present; upstream's own test vectors carry such lengths) and Booleans, whose length field PyKMIP ignores."""
+    def go(pos, end, depth=0):
+        while end - pos >= 8 and depth < 100:
+            typ = buf[pos + 3]
+            ln = struct.unpack('>I', buf[pos + 4:pos + 8])[0]
+            padded = ln + (-ln) % 8
+            fits = pos + 8 + padded <= end
+            if typ == 1:
+                r = go(pos + 8, min(pos + 8 + ln, end), depth + 1)
+                if r:
+                    return r
+                if not fits:
+                    return None                      # lenient reading: the structure ends with its container
+            elif not fits:
+                if buf[pos] in (0x42, 0x54) and 2 <= typ <= 10 and not (typ == 6 and end - pos - 8 >= 8):
+                    return (pos, typ, ln, end - pos - 8)
+                return None
+            pos += 8 + padded
+        return None
+    if len(buf) < 8 or buf[3] != 1:
+        return None
+    return go(8, len(buf))
+
+
+def inflations(b, structures=False):
+    """One INNER length field raised by +8, +16 or to 0x7ffffff8; every outer length and the frame length stay
+    correct (the frame is exactly these bytes): the item then claims more than its enclosing structure holds."""
+    out = []
+    for off, tag, typ, ln, d in walk(b):
+        if off == 0 or (typ == 1 and not structures):
+            continue
+        for new in (ln + 8, ln + 16, 0x7ffffff8):
+            out.append(('inflate-t%d+%s' % (typ, 'max' if new == 0x7ffffff8 else new - ln), b[:off + 4] + struct.pack('>I', new) + b[off + 8:]))
+    return out
+
+
 def reframe(b):
     """Make the outer length field tell the truth (the frame is then exactly these bytes)."""
     if len(b) < 8:
@@ -243,7 +284,7 @@ def mutations(b, rng, per_kind):
             m[rng.randrange(8, len(m))] = rng.randrange(256)
         put('byteflip', m)
     # extra bytes after the message, duplicated item, item removed
-    put('trailing', b + bytes(rng.randrange(256) for _ in range(8)))
+    put('trailing', b + b'\x00' + bytes(rng.randrange(256) for _ in range(7)))     # junk that cannot be taken for an item
     if len(inner) > 2:
         off, tag, typ, ln, d = rng.choice(inner)
         end = off + 8 + ln + (-ln) % 8
@@ -353,6 +394,16 @@ def oracle_connection(ctx, spec, obs, calls, meta, expect_frames=None):
         f['env'] = env
         decodable = obs['parse'][i] is not None
         changed = f['dump_before'] != f['dump_after']
+        ov = primitive_overrun(f['frame'])
+        if ov is not None:
+            # an independent notion of "cannot be decoded": the value bytes the length field promises are not in the frame
+            ok = (len(env['items']) == 1 and env['items'][0]['status'] == 1
+                  and env['items'][0]['reason'] == sessdrv.REASON_INVALID_MESSAGE)
+            if not ok or f['engine'] is not None or changed:
+                hit({'kind': 'overrunning-item-accepted', 'item_type': ov[1]},
+                    'an item of type %d at offset %d declares %d bytes where its enclosing structure has %d left, yet the request was '
+                    '%s' % (ov[1], ov[0], ov[2], ov[3], 'executed' if f['engine'] is not None else 'not answered with INVALID_MESSAGE'),
+                    dict(fx, answer=env, store_changed=changed, engine_entered=f['engine'] is not None))
         if not decodable:
             ok = (len(env['items']) == 1 and env['items'][0]['status'] == 1
                   and env['items'][0]['reason'] == sessdrv.REASON_INVALID_MESSAGE)
@@ -409,7 +460,8 @@ def run(ctx):
         '(a) every catalogue request (26 operations incl. batches and engine-unsupported ones, 7 Register types) under every '
         'version 1.0-2.0 it encodes in; (b) grammar-aware corruptions of those (every length field +-1/+-8/0/2^31/2^32-1, '
         'tag and type flips, truncation at item boundaries, batch count != items, unsupported versions, unknown enum values, '
-        'byte flips, duplicated/dropped items, deep nesting, raw random) in sequences bad*-then-good, each also replayed one '
+        'byte flips, duplicated/dropped items, deep nesting, raw random; every INNER length field of Register/Create/DeriveKey '
+        'requests raised by +8/+16/to 0x7ffffff8 with outer lengths kept right) in sequences bad*-then-good, each also replayed one '
         'frame per connection on a twin engine; (c) every composition of every stream of <= 12 bytes (quick: 8..12 bytes, 1-2 '
         'streams per length) and random chunkings (1..9000-byte chunks) of long streams incl. frames > 4096 bytes; '
         '(d) maximum response size in {absent, 0, 1, size-1, size, size+1, 2^31-1, -1} for five operations, plus sequences '
@@ -454,7 +506,11 @@ def run(ctx):
             for kind, fr in mutations(b, rng, per_kind):
                 bad.append((kind + ':' + lab, fr))
         bad += special_frames(rng, valid)
-        # decodable requests with a tiny limit, so that a limit leaking into the following frames would show
+        # inner length fields that promise more than the enclosing structure holds, on requests with effects
+        eff = [x for x in valid if (x[0].startswith('register_') or x[0] in ('create', 'create_key_pair', 'derive_key', 'modify_attribute'))
+               and x[1] in (((1, 2), (2, 0)) if quick else kdrv.VERSIONS)]
+        inflated = [(kind + ':' + lab, fr) for lab, v, m, b in eff for kind, fr in inflations(b, structures=not quick)]
+        ctx.count('mutation.inflate-inner-length', len(inflated))
         small = [('maxsmall:%s' % lab, with_max_size(info, lab, v, m), m)
                  for lab in ('query', 'get', 'locate') for v in ((1, 0), (1, 4), (2, 0)) for m in (1, 64, -1)]
         small_max = {fr: m for _, fr, m in small}
@@ -463,6 +519,7 @@ def run(ctx):
         if len(bad) > cap:
             keep = special_frames(rng, valid) + [(k, fr) for k, fr, _ in small] * 2
             bad = rng.sample(bad, cap - len(keep)) + keep
+        bad += inflated if quick or len(inflated) < 6000 else rng.sample(inflated, 6000)
         rng.shuffle(bad)
         probes = [x for x in valid if x[0] in ('get', 'create', 'locate', 'query', 'get_attributes', 'encrypt', 'batch2', 'get_attributes_unset')]
         pa, pb = pool.fresh(), pool.fresh()
